@@ -161,3 +161,17 @@ add("C11",
     shards={"quick": 16, "thorough": 16},
     require_counts=["damaged_parent_cases", "judged_cases", "precondition_false_not_judged", "skipped_snapshots"],
     )
+
+add("C15",
+    engine="SEQ",
+    level="model_checking",
+    technique="explicit-state BFS over sequences of all public mutating operations with a call-recording store",
+    design_ref="DESIGN.md §4.1, §5 C15",
+    level_text="Breadth-first search (depth 3 quick / 4 thorough) from an append-only and a normal repository over every public mutating operation: backup, forget, prune with 10/24 option vectors, repair index (default/read-all), "
+               "repair snapshots (delete/keep), rewrite (forget/keep x snapshot modification/tree rewrite), save snapshots, merge, copy-into, seven config changes, toggling append-only, key add/delete - each also with its dry-run flag "
+               "(prune: plan only) - plus the environment step 'lose a data pack'. The store records every backend call: in append-only mode every snapshot, index and pack file present before an operation must be present byte-identically afterwards; "
+               "an operation that reports the append-only error must have issued zero mutating calls; every dry run must issue zero mutating calls and leave the store unchanged.",
+    level_note="Canonical states drop random ids; key files are outside the statement. Depth-bounded; option vectors as listed in c02.rs.",
+    shards={"quick": 16, "thorough": 16},
+    require_counts=["refused_append_only", "dry_run_actions", "append_only_actions", "result:Backup/dry:ok", "result:RepairSnapshots/dry:ok"],
+    )
